@@ -7,7 +7,7 @@
 # replaced by an admission IN THE SCRATCH COPY ONLY and the file is compiled again, so that the exact
 # set of broken lemmas is found (not just the first one).
 # Expected: the baseline and the equivalent mutant compile; every semantic mutant breaks exactly the
-# listed lemmas; an edit outside the translated fragment gives TRANSLATE-ERROR (exit 2).
+# listed lemmas; an edit outside the translated fragment gives TRANSLATE-ERROR (exit 3: the unit fails alone; 2: fatal).
 # usage: tools/sgrtie_selftest.sh     (needs the main tree built: coq/Proofs/Sgr.vo, coq/Model/Vt.vo)
 ROOT=$(cd "$(dirname "$0")/.." && pwd)
 COQ=$ROOT/coq
